@@ -258,6 +258,9 @@ func runMixedProp(c *fw.Ctx, prop string) {
 			c.Count("genesis_orders_of_blocked_module_accounts", 1)
 		}
 	}
+	if prop == "C02" && c.Case%4 == 0 {
+		c02GenesisProbes(c, o)
+	}
 	e := NewEnv(c, o)
 	defer e.L.Cleanup()
 	g := NewGen(e)
